@@ -29,7 +29,9 @@ class C08(Prop):
                           share=True, late=True, top="always", top_modes=["standalone", "definition"])
 
     def strategy(self, tier):
-        return gen_ir.recipes(self.cfg(tier))
+        # with_ids: definitions also carry an EDIF.identifier (as after an EDIF read or export)
+        return st.tuples(gen_ir.recipes(self.cfg(tier)), st.booleans()).map(
+            lambda t: dict(t[0], with_ids=t[1]))
 
     def fixed_cases(self, tier):
         return gen_ir.example_cases(tier)
@@ -51,6 +53,15 @@ class C08(Prop):
             pre = model.wf(nl, strict=True)
             if pre:
                 raise RuntimeError("generator produced ill-formed netlist: %r" % pre[:3])
+            if case.get("with_ids"):
+                res.label("definitions-with-identifiers")
+                for L in nl.libraries:
+                    for D in L.definitions:
+                        if D.name is not None:
+                            try:
+                                D["EDIF.identifier"] = D.name
+                            except ValueError:
+                                pass
         before = model.elab(nl)
         defs_before = {id(D): D for L in nl.libraries for D in L.definitions}
         names_before = {id(D): D.name for D in defs_before.values()}
